@@ -32,7 +32,7 @@ def config(quick):
     if quick:
         ws_n, ws_e, lw = [1, 3, 41], [4], [(3, 4)]
     else:
-        ws_n, ws_e, lw = [1, 3, 41], [2, 4, 41], [(1, 4), (4, 4), (3, 14), (41, 4)]
+        ws_n, ws_e, lw = [1, 3, 41], [2, 4], [(1, 4), (4, 4), (3, 14)]
     wl = sorted(set(v for _, v in lw))
     sa = {
         "Writer": [(w, 0) for w in ws_n + [0]], "AddWriter": [(w, 0) for w in ws_n + [0]], "RemoveWriter": [(w, 0) for w in ws_n + [0]],
